@@ -120,9 +120,12 @@ def complete_defaults(vals, specs):
     return vals
 
 
-def scenario(sseed, mode):
+def scenario(sseed, mode, do_reload=True):
     kt = impl()
     R = random.Random(sseed)
+    with_reload = mode == "discover-reload"
+    if with_reload:
+        mode = "discover"
     lines, expect = [], []
     tags = collections.Counter()
     specs = gen.rand_specs(R, finite=True, samename=(mode == "samename"), maxdepth=R.choice([1, 2, 3]), top=(1, 3))
@@ -147,7 +150,8 @@ def scenario(sseed, mode):
         disc_n = [0]
         # discover mode, uniform flavour: every trial's run declares the same late entries (HyperModel.fit style, or a
         # conditional scope opened only there) - the final space is then well defined and exactly-once coverage is checked
-        uniform = mode == "discover" and R.random() < 0.6
+        uniform = (R.random() < 0.6 and mode == "discover") or with_reload
+        reload_at = R.randint(3, 30) if with_reload else -1
         late = []
         if uniform:
             tops = [s_ for s_ in specs if not s_["conds"]]
@@ -172,6 +176,15 @@ def scenario(sseed, mode):
                         hps.Choice(nm, ["p", "q", "r"], default="q")
         while steps < 6000 and not aborted and (hold or len(stopped) < len(tun)):
             steps += 1
+            if steps == reload_at and do_reload:
+                # C07: the process stops here; a new one reloads the project and the search goes on (the trials that were
+                # running are queued again, their workers are gone)
+                quiet(o.save)
+                n2 = gen.clone_oracle(o, d)
+                quiet(n2.reload)
+                o = n2
+                hold = {}
+                tags["reloaded-mid-search"] += 1
             w = R.choice(tun)
             if w in hold and R.random() < 0.7:
                 t = hold.pop(w)
@@ -281,7 +294,17 @@ def scenario(sseed, mode):
 def guarded(sseed, mode):
     try:
         return scenario(sseed, mode)
-    except Violation:
+    except Violation as v:
+        if mode == "discover-reload" and v.pid == "C09":
+            # is the reload to blame? the same search without the interruption decides
+            try:
+                scenario(sseed, mode, do_reload=False)
+            except Exception:
+                raise v
+            v2 = Violation("C07", "grid search reloaded in mid-search does not continue as the uninterrupted one (which tries every combination "
+                                  "exactly once): " + v.what, {"tag": "grid-reload-continuation"})
+            v2.also = [v]
+            raise v2
         raise
     except Exception as e:
         import os
@@ -307,7 +330,8 @@ def run(seed, tier, n=None, modes=("static", "static", "static", "samename", "di
         try:
             lines, expect, doc, tags = guarded(sseed, mode)
         except Violation as v:
-            res.violations.append({"pid": v.pid, "what": v.what, "sig": v.sig, "replay": {"suite": "grid", "seed": sseed, "mode": mode}})
+            for x in [v] + list(getattr(v, "also", [])):
+                res.violations.append({"pid": x.pid, "what": x.what, "sig": x.sig, "replay": {"suite": "grid", "seed": sseed, "mode": mode}})
             continue
         res.hist.update(tags)
         res.hist["mode-" + mode] += 1
